@@ -173,6 +173,88 @@ mod driver {
     }
 
     /// C05: one DhtCoreEngine::handle_request call on a store holding the probed entries
+    /// C03: one DhtCoreEngine::store / retrieve call on an engine whose data store, routing table (layout [[3,1],[7,1]]) and load table are the model's
+    pub fn kv_engine(case: &Value) -> Value {
+        let rt = tokio::runtime::Builder::new_current_thread().enable_all().build().unwrap();
+        rt.block_on(async {
+            let mut engine = DhtCoreEngine::new_with_validation_mode(NodeId::from_bytes([0u8; 32]), CloseGroupEnforcementMode::LogOnly).unwrap();
+            let mut case2 = case.clone();
+            case2["__params"]["layout"] = json!([[3, 1], [7, 1]]);
+            case2["__params"]["B"] = json!(1);
+            let t = table(&case2);
+            {
+                let mut lb = engine.load_balancer.write().await;
+                let mut tag = 0u64;
+                for bk in t.buckets.iter() {
+                    for n in bk.get_nodes() {
+                        let _ = tag;
+                        let lbl = format!("LB.loads@n{}", n.capacity.storage_available);
+                        if case.get(&format!("{lbl}.present")).and_then(|v| v.as_bool()).unwrap_or(false) {
+                            let f = |i: usize| f64::from_bits(u(case, &format!("{lbl}.v{i}")));
+                            lb.node_loads.insert(n.id.clone(), LoadMetric { storage_used_percent: f(0), bandwidth_used_percent: f(1), request_rate: f(2) });
+                        }
+                        tag += 1;
+                    }
+                }
+            }
+            *engine.routing_table.write().await = t;
+            let is_store = case["__params"]["op"].as_str() == Some("store");
+            let key = if is_store {
+                match case["__params"]["t"].as_u64() {
+                    Some(t) => id_in_bucket(raw32(case, "key"), t as usize),
+                    None => id_in_bucket(raw32(case, "key"), 3),
+                }
+            } else {
+                raw32(case, "key")
+            };
+            let key = DhtKey::from_bytes(key);
+            let other = DhtKey::from_bytes(raw32(case, "other"));
+            fn blob(id: u64, len: u64) -> Vec<u8> {
+                let mut v = vec![0xabu8; len as usize];
+                for (i, b) in id.to_be_bytes().iter().enumerate() {
+                    if i < v.len() {
+                        v[i] = *b;
+                    }
+                }
+                v
+            }
+            fn unblob(v: &Vec<u8>) -> Value {
+                let mut idb = [0u8; 8];
+                for i in 0..8.min(v.len()) {
+                    idb[i] = v[i];
+                }
+                json!({"id": u64::from_be_bytes(idb), "len": v.len() as u64})
+            }
+            {
+                let mut ds = engine.data_store.write().await;
+                for (label, k) in [("other", &other), ("cand", &key)] {
+                    if case.get(&format!("D.data@{label}.present")).and_then(|v| v.as_bool()).unwrap_or(false) {
+                        ds.put(k.clone(), blob(u(case, &format!("D.data@{label}.v0")), u(case, &format!("D.data@{label}.v1")).min(1 << 20)));
+                    }
+                }
+            }
+            let mut out = serde_json::Map::new();
+            if is_store {
+                let r = engine.store(&key, blob(u(case, "value.id"), u(case, "value.len").min(1 << 20))).await;
+                out.insert("accepted".into(), json!(r.is_ok()));
+            } else {
+                let r = engine.retrieve(&key).await;
+                out.insert("ok".into(), json!(r.is_ok()));
+                out.insert("value".into(), match r {
+                    Ok(Some(v)) => unblob(&v),
+                    _ => Value::Null,
+                });
+            }
+            let ds = engine.data_store.read().await;
+            let mut data = serde_json::Map::new();
+            for (label, k) in [("other", &other), ("cand", &key)] {
+                data.insert(format!("D.data@{label}"), ds.data.get(k).map(unblob).unwrap_or(Value::Null));
+            }
+            out.insert("data".into(), Value::Object(data));
+            Value::Object(out)
+        })
+    }
+
     pub fn dispatch(case: &Value) -> Value {
         let rt = tokio::runtime::Builder::new_current_thread().enable_all().build().unwrap();
         rt.block_on(async {
@@ -480,13 +562,35 @@ mod driver {
 
     pub fn mutation(case: &Value) -> Value {
         let mut rt = table(case);
+        let symcap = case["__params"]["symcap"].as_bool().unwrap_or(false);
+        if symcap {
+            // symbolic bucket capacity and arbitrary last-seen times (tags number the layout's slots in order)
+            let cap = u(case, "bucket_cap") as usize;
+            for (j, bk) in rt.buckets.iter_mut().enumerate() {
+                bk.max_size = cap;
+                for (sl, n) in bk.nodes.iter_mut().enumerate() {
+                    n.last_seen = std::time::SystemTime::UNIX_EPOCH + Duration::from_secs(u(case, &format!("b{j}s{sl}.seen")));
+                }
+            }
+        }
         let x = match case["__params"]["xb"].as_u64() {
             Some(j) => id_in_bucket(raw32(case, "x"), j as usize),
             None => [0u8; 32],
         };
         let mut ok = true;
         if case["__params"]["op"].as_str() == Some("add") {
-            ok = rt.add_node(mk(x, 999)).is_ok();
+            let mut xn = mk(x, 999);
+            if symcap {
+                xn.last_seen = std::time::SystemTime::UNIX_EPOCH + Duration::from_secs(u(case, "x.seen"));
+                vp::clock::reset();
+                vp::clock::push_real(u(case, "now.s"), 0);
+                vp::clock::arm(true);
+            }
+            ok = rt.add_node(xn).is_ok();
+            if symcap {
+                vp::clock::arm(false);
+                vp::clock::reset();
+            }
         } else {
             rt.remove_node(&NodeId::from_bytes(x));
         }
@@ -514,6 +618,7 @@ fn verif_replay_entry() {
         "mutation" => driver::mutation(&case),
         "engine_ops" => driver::engine_ops(&case),
         "dispatch" => driver::dispatch(&case),
+        "kv_engine_store" | "kv_engine_retrieve" => driver::kv_engine(&case),
         "admission" => driver::admission(&case),
         "admission_step" => driver::admission_step(&case),
         other => panic!("unknown driver {other}"),
